@@ -8,6 +8,6 @@ git -C /repo archive HEAD | tar -x -C "$W/formula"
 ( cd "$W/formula" && { git apply --whitespace=nowarn "$HERE/seeded/$NAME/patch.diff" 2>/dev/null || patch -p1 -s < "$HERE/seeded/$NAME/patch.diff"; } ) || { echo "patch does not apply"; rm -rf "$W"; exit 3; }
 VERIF_REPO="$W/formula" VERIF_SCRATCH="$W/out" "$HERE/check" "$C" "$TIER" >"$W/log" 2>&1; rc=$?
 echo "$NAME vs $C $TIER: exit $rc: $(grep -c '^VIOLATION' "$W/log") VIOLATION; $(grep -m1 'signature=' "$W/log" | sed 's/.*signature=//' | cut -c1-200)"
-[ "${KEEPLOG:-}" ] && cp "$W/log" "/tmp/try_$NAME_$C.log"
+[ "${KEEPLOG:-}" ] && cp "$W/log" "/tmp/try_${NAME}_${C}.log"
 CK="$(echo "$W/formula" | cksum | cut -d' ' -f1)"; rm -rf "$W" "$HERE"/.build/*-alt"$CK"*
 exit $rc
